@@ -22,6 +22,7 @@ func main() {
 		verbose := fs.Bool("v", false, "print hypotheses of failed obligations")
 		dump := fs.String("dump", "", "directory to dump SMT of non-discharged obligations")
 		dumpAll := fs.Bool("dumpall", false, "dump every obligation")
+		panicMode := fs.Bool("panic", false, "no-panic mode (as in the C10/C20 checks)")
 		fs.Parse(os.Args[2:])
 		t0 := time.Now()
 		p, err := LoadProgram(repoDir())
@@ -48,7 +49,7 @@ func main() {
 					rc = 2
 					continue
 				}
-				rep = VerifyFunc(p, fc, VerifyOpts{})
+				rep = VerifyFunc(p, fc, VerifyOpts{PanicMode: *panicMode, PanicProps: []string{"C10", "C20"}})
 			}
 			DischargeAll(rep.Obligations, *timeout, false, runtime.NumCPU())
 			if *dumpAll && *dump != "" {
@@ -63,6 +64,13 @@ func main() {
 		}
 		cleanupScratch()
 		os.Exit(rc)
+	case "entrypoints":
+		p, err := LoadProgram(repoDir())
+		if err != nil {
+			fmt.Println("load error:", err)
+			os.Exit(2)
+		}
+		cmdEntryPoints(p)
 	case "effects-infer":
 		p, err := LoadProgram(repoDir())
 		if err != nil {
